@@ -177,6 +177,11 @@ def gen_spawn(d: D, prof: dict, depth: int, op: Optional[dict] = None) -> dict:
             op["nkw"] = nk
         if d.p(0.2):
             op["pass_args"] = True
+        r2 = d.i(0, 9)
+        if r2 == 0:
+            op["args_as_list"] = True
+        elif r2 == 1:
+            op["kwargs_as_mapping"] = True
     else:
         op["n"] = n_hint = d.i(0, prof["max_elems"])
         if d.p(0.85):
